@@ -6,11 +6,12 @@ Import ListNotations.
 Lemma option_eq_dec (a b : option nat) : {a = b} + {a <> b}.
 Proof. decide equality. apply Nat.eq_dec. Qed.
 
-Lemma inv_init wait script : inv (init wait script).
+Lemma inv_init wait script : forallb cmd_ok script = true -> inv (init wait script).
 Proof.
-  unfold init. apply next_cmd_inv; [|reflexivity].
+  intro Hok. unfold init. apply next_cmd_inv; [|reflexivity].
   split.
-  - constructor; simpl; auto; try tauto; try congruence; try (split; congruence); try constructor.
+  - constructor; simpl; auto; try tauto; try congruence; try (split; congruence); try constructor;
+      try exact Hok; try (intros; discriminate).
   - intros i p H. simpl in H. destruct i; discriminate.
 Qed.
 
@@ -24,11 +25,11 @@ Proof.
 Qed.
 
 Lemma reachable_inv s : reachable s -> inv s.
-Proof. intros (w & sc & sched & ->). apply exec_inv, inv_init. Qed.
+Proof. intros (w & sc & sched & Hok & ->). apply exec_inv, inv_init, Hok. Qed.
 
 Lemma reachable_step s t s' : reachable s -> step s t = Some s' -> reachable s'.
 Proof.
-  intros (w & sc & sched & ->) H. exists w, sc, (sched ++ [t]).
+  intros (w & sc & sched & Hok & ->) H. exists w, sc, (sched ++ [t]). split; [exact Hok|].
   revert H. generalize (init w sc). induction sched as [|u r IH]; intros s0 H; simpl in *.
   - rewrite H. reflexivity.
   - destruct (step s0 u); apply IH; exact H.
@@ -125,6 +126,6 @@ Proof.
   split; [|split; [exact Ht|split; [exact Hth|]]].
   - intros i p H. split; [|apply (Hdone i p H)].
     rewrite (p_open _ _ _ (P i p H)), (Hdone i p H). reflexivity.
-  - intros a HM s' Hs. simpl in Hs. unfold step_main in Hs. rewrite HM in Hs.
+  - intros a cr HM s' Hs. simpl in Hs. unfold step_main in Hs. rewrite HM in Hs.
     destruct (smlock s); [discriminate|]. simpl in Hs. rewrite Hf in Hs. inversion Hs. split; reflexivity.
 Qed.
